@@ -209,6 +209,10 @@ class World:
                 return target.update(*args, **kw)
             target |= args[0]
             return None
+        if m == "update_kw":
+            args, _ = self.dsrc(op["src"])
+            kw = {P(k): P(v) for k, v in codec.seq(op["kw"])}
+            return target.update(*args, **kw)
         if m == "setdefault":
             return target.setdefault(P(op["k"]), P(op["v"]))
         if m == "pop":
@@ -414,13 +418,21 @@ def driver(cinco, seed, n_traces, length):
                     continue
                 ev = {"c": "list", "op": op}
             else:
-                m = rng.choice(["setitem", "update", "ior", "setdefault", "pop", "popd", "popitem", "delitem", "clear", "copy", "get", "contains", "keys", "len"])
+                m = rng.choice(["setitem", "update", "update_kw", "ior", "setdefault", "pop", "popd", "popitem", "delitem", "clear", "copy", "get", "contains", "keys", "len"])
                 op = {"m": m}
                 if m in ("setitem", "setdefault", "popd"):
                     op.update(k=key(), v=val())
                 elif m in ("update", "ior"):
                     op["src"] = dsrc()
                     if m == "ior" and op["src"]["k"] == "kwargs":
+                        continue
+                elif m == "update_kw":
+                    op["src"] = dsrc()
+                    if op["src"]["k"] in ("kwargs", "pairs"):
+                        op["src"]["k"] = "same"
+                        op["src"]["kvs"] = []
+                    op["kw"] = [[S(rng.choice(["a", "A", "b", "k1"])), val()] for _ in range(rng.randint(1, 2))]
+                    if len({tuple(k["s"]) for k, _ in op["kw"]}) < len(op["kw"]):
                         continue
                 elif m in ("pop", "delitem", "get", "contains"):
                     op["k"] = key()
